@@ -23,6 +23,7 @@
 From Coq Require Import List String Bool Arith Lia.
 From Verif Require Import TplTieBase TplTieData Gen_CodecTpl Wire Walker.
 Import ListNotations.
+Local Open Scope nat_scope.
 Local Open Scope string_scope.
 
 (* ---------------- Part 1: regenerated tables = reviewed tables ---------------- *)
@@ -91,7 +92,7 @@ Definition has_sub (needle hay : string) : bool :=
 Definition emits (k : akind) (needle : string) (l : list (akind * string)) : bool :=
   existsb (fun '(k', p) =>
     (match k, k' with
-     | KStore, KStore | KCall, KCall | KGuard, KGuard | KCursor, KCursor | KReturn, KReturn => true
+     | KStore, KStore | KCall, KCall | KGuard, KGuard | KCursor, KCursor | KReturn, KReturn | KMacro, KMacro | KLoop, KLoop => true
      | _, _ => false
      end) && has_sub needle p) l.
 
@@ -161,13 +162,13 @@ Qed.
 Theorem walker_w_prim_split : forall P w sat z buf off sb,
   storage_bits (PU w sat) (VInt z) = Some sb ->
   w_prim P (PU w sat) (VInt z) buf off =
-  match walker_ser_path (off mod 8 =? 0) (w <=? 8) with
+  match walker_ser_path (Nat.eqb (off mod 8) 0) (Nat.leb w 8) with
   | WByte => bind (w_set P buf off (firstn 8 sb)) (fun '(b, _) => Ok (b, off + w))
   | WGeneric => w_set P buf off (firstn w sb)
   end.
 Proof.
   intros P w sat z buf off sb H. unfold w_prim. rewrite H. cbn [prim_bits]. unfold walker_ser_path.
-  destruct ((off mod 8 =? 0) && (w <=? 8)); reflexivity.
+  destruct (Nat.eqb (off mod 8) 0 && Nat.leb w 8); reflexivity.
 Qed.
 
 Theorem walker_saturation_rule : forall w sat z,
@@ -201,8 +202,8 @@ Qed.
 (* Walker.r_prim: the guarded load exists for unsigned only, under aligned /\ w <= 8; signed always goes through the getter *)
 Theorem walker_r_prim_split : forall P w sat buf cap off,
   r_prim P (PU w sat) buf cap off =
-    (if (off mod 8 =? 0) && (w <=? 8)
-     then VInt (if off + w <=? cap then Z.of_N (N_of_bits (get_bits P buf cap off w)) else 0%Z)
+    (if Nat.eqb (off mod 8) 0 && Nat.leb w 8
+     then VInt (if Nat.leb (off + w) cap then Z.of_N (N_of_bits (get_bits P buf cap off w)) else 0%Z)
      else VInt (Z.of_N (N_of_bits (get_bits P buf cap off w)))) /\
   r_prim P (PS w sat) buf cap off = VInt (signed_of w (N_of_bits (get_bits P buf cap off w))).
 Proof. intros. split; reflexivity. Qed.
@@ -224,6 +225,18 @@ Definition c_farr_des (f : aflags) := flatten_all (rho_arr f) (find_macro "_dese
 Theorem c_array_paths : forall b p w z,
   let f := Build_aflags b p w z in
   emits KCall "nunavutCopyBits(&buffer[0], offset_bits," (c_farr_ser f) = b || (p && z) /\
-  emits KCall "_serialize_any(t.element_type" (c_farr_ser f) = false /\
+  emits KMacro "_serialize_any(t.element_type" (c_farr_ser f) = negb (b || (p && z)) /\
+  emits KMacro "_deserialize_any(t.element_type" (c_farr_des f) = negb (b || (p && z)) /\
   emits KCall "nunavutGetBits(&{{ reference }}" (c_farr_des f) = b || (p && z).
 Proof. intros [] [] [] []; vm_compute; repeat split; reflexivity. Qed.
+
+(* the statement patterns quoted by Properties/C01.v and C02.v *)
+Definition pat0 : string := "if ({{ <sat> }} > ".
+Definition pat1 : string := "offset_bits += {{ t.bit_length }}U;".
+Definition pat2 : string := "<= capacity_bits)".
+Definition pat3 : string := "{{ getter }}(&buffer[0], capacity_bytes, offset_bits".
+Definition pat4 : string := "if (offset_bits < capacity_bits)".
+Definition pat5 : string := "nunavutCopyBits(&buffer[0], offset_bits,".
+Definition pat6 : string := "_serialize_any(t.element_type".
+Definition pat7 : string := "_deserialize_any(t.element_type".
+Definition pat8 : string := "nunavutGetBits(&{{ reference }}".
